@@ -270,6 +270,8 @@ func checkC05(c *Ctx) {
 			c.bad("OWN-physical-write", key, l.ipos(in), "a physical write is issued inside a logical operation: a stop right after it leaves part of the operation durable")
 		}
 	}
+	// ---- (4b) background node batch vs. root batch of the importer
+	checkInflightProtocol(c, "ORDER-root-last")
 	// ---- (5) what hides index entries of an interrupted commit after the reopen
 	checkVersionGuard(c)
 	c.trust("each physical batch write is atomic and ordered (property's model)", "range over a slice visits elements in order")
